@@ -73,6 +73,7 @@ func (c *matcherCompiler) compileIdent(v reflect.Value) Matcher {
 		return c.compileGeneric(v)
 	}
 
+	c.metavars = append(c.metavars, name)
 	return MetavarMatcher{
 		Fset:        c.fset,
 		Name:        name,
@@ -108,7 +109,20 @@ func (m MetavarMatcher) Match(got reflect.Value, d data.Data, r Region) (data.Da
 	return data.WithValue(d, key, metavarData{
 		Matcher:  newMatcherCompiler(m.Fset, nil, r.Pos, r.End).compile(got),
 		Replacer: newReplacerCompiler(m.Fset, nil, r.Pos, r.End).compile(got),
+		Node:     nodeIdentity(got),
 	}), true
+}
+
+// nodeIdentity returns the address of the node v holds, or 0 if v is not a
+// pointer (or an interface holding one).
+func nodeIdentity(v reflect.Value) uintptr {
+	for v.Kind() == reflect.Interface && !v.IsNil() {
+		v = v.Elem()
+	}
+	if v.Kind() == reflect.Ptr {
+		return v.Pointer()
+	}
+	return 0
 }
 
 type metavarKey string
@@ -116,6 +130,10 @@ type metavarKey string
 type metavarData struct {
 	Matcher
 	Replacer
+
+	// Node identifies the captured node: two captures of the same node are
+	// the same binding.
+	Node uintptr
 }
 
 func isExpression(t reflect.Type) bool {
